@@ -1,17 +1,17 @@
 SPECIFICATION Spec
 CONSTANTS
-  Classes <- Classes4
-  Outs <- OutsC02
-  Durs = {0, 1, 2, 5}
-  Rets <- RetsC02
-  Advs <- AdvsAll
+  Classes <- ClassesCaps
+  Outs <- OutsCaps
+  Durs = {0}
+  Rets <- RetsOne
+  Advs <- AdvsExact
   Decs <- DecsSleep
   BFaults <- BFaultsNone
   Ras <- RasNone
   Modes = {"call", "exec"}
   RunGaps <- GapsNone
-  NRuns = 1
-  Configs <- ConfigsC02
+  NRuns = 2
+  Configs <- ConfigsC01T
   RecordHist = FALSE
 INVARIANT NoViolation
 INVARIANT AttemptsBounded
